@@ -1333,7 +1333,7 @@ def run(env: Env) -> Outcome:
                 out.notes.append("replay of a concurrent scenario: re-drawn from the seed (parameters in the replay file)")
             # schedules over several state stores: corpus first, then generated (drawn after everything else, so the
             # histories above are the same as before for a given seed)
-            for _ in range(env.budget(120, 2500)):
+            for _ in range(env.budget(120, 1500)):
                 sched_cases.append({"label": "generated schedule", "sched": sched.gen_scenario(env.rng)})
             for j, sc_case in enumerate(sched_cases):
                 out.violations += sched_case(sc_case, tmp, j, out, lines, impl)
